@@ -298,6 +298,19 @@ where
                 }
                 // --- dense matrix life cycle
                 10 => {
+                    if arg >= 240 {
+                        // a size no allocator can serve: the call panics ("capacity overflow", caught like every
+                        // panic here) - the object it was called on stays in use by the ops that follow, and
+                        // whatever state the failed call left behind must still be memory-safe
+                        stats.ops.push("failed-resize");
+                        // (rows x row size overflows isize: Vec refuses before asking the allocator)
+                        let huge = usize::MAX / 4;
+                        match arg % 3 {
+                            0 => w.scores.resize(huge, 7),
+                            1 => w.dscores.resize(huge, 7),
+                            _ => w.striped.configure_wrap(huge),
+                        }
+                    }
                     let rows = (arg as usize) % 40;
                     let mut m = DenseMatrix::<u32, U7>::with_capacity(rows, rows / 2);
                     check_aligned("dense", &m);
